@@ -22,7 +22,7 @@ PROPS = {
         "outside": ["rendered message text", "minimum+1 overflow for n_times(usize::MAX).then()"],
     },
     "C01": {
-        "mirsym": ["call_path", "eval_dyn", "assembler", "construction"],
+        "mirsym": ["call_path", "eval_dyn", "assembler", "construction", "tuples"],
         "bounds": {"quick": "scan: K=3 patterns, all 27 verdict tables {reject,accept,error}^3, arbitrary 64-bit prior counts and ordered index; one step (state = counters, arbitrary => histories of any length); matcher downcast: all u8 x u8",
                    "thorough": "adds K=4 and the eval_dyn step with a 1-entry method table"},
         "assumptions": COMMON_KANI + ["predicates are modelled as an arbitrary verdict per pattern (the link matcher closure = predicate is C06)",
@@ -30,13 +30,13 @@ PROPS = {
         "outside": ["K > 4 patterns", "the matching! macro (C06)"],
     },
     "C02": {
-        "mirsym": ["builder_chains", "call_path", "eval_dyn", "eval_generic", "output_containers"],
+        "mirsym": ["builder_chains", "call_path", "eval_dyn", "eval_generic", "output_containers", "schedules"],
         "bounds": {"quick": "segment lookup: S<=4 segments, repeat counts all values < 2^60 including 0, call index all 2^64; next_responder from an arbitrary counter value"},
         "assumptions": COMMON_KANI + COMMON_MIR + ["builder chains: IntoReturn / IntoReturnOnce / IntoReturner conversions are environment calls that record which conversion ran (their behaviour is decided under C12/C17)"],
         "outside": ["sum of repeat counts >= 2^63", "more than 4 segments"],
     },
     "C04": {
-        "mirsym": ["assembler", "call_path", "builder_chains"],
+        "mirsym": ["assembler", "call_path", "builder_chains", "tuples"],
         "bounds": {"quick": "owner lookup and one ordered step: 3 patterns of the called method with arbitrary increasing disjoint 64-bit slot ranges (empty ranges allowed), arbitrary global index, arbitrary prior counts"},
         "assumptions": COMMON_MIR + COMMON_KANI + ["std::thread::current()/panicking() replaced by the overlay's std_shim (Kani cannot compile thread::current())"],
         "outside": ["more than 3 ordered patterns per method in one step harness"],
@@ -61,7 +61,7 @@ PROPS = {
         "outside": ["errors racing from several threads", "message text", "the no_std `panicked` flag"],
     },
     "C07": {
-        "mirsym": ["eval_dyn", "call_path"],
+        "mirsym": ["eval_dyn", "call_path", "generated_forwarding"],
         "bounds": {"quick": "the complete decision table of eval_dyn: method table M=0..2 entries with symbolic keys and symbolic called type id x has_default_impl x partial_by_default x fallback mode x scan result {none, pattern 0, pattern 1, error} x responder available; one call from an arbitrary state"},
         "assumptions": COMMON_MIR + ["match_call_pattern / next_responder are replaced by their contracts, which the Kani units c01_scan_first_match, c04_in_order_step, c02_next_responder_step decide on the compiled code"],
         "outside": ["the generated match arms that act on Unmock / CallDefaultImpl (C15/C16)", "argument values (the scan result is symbolic instead)"],
@@ -112,21 +112,21 @@ PROPS = {
         "outside": ["hardware memory models weaker than SC", "the randomized real-thread stress half of the quantifier (used only as native replay of a solver counterexample)", "more than 4 threads x 3 calls"],
     },
     "C05": {
-        "mirsym": ["eval_generic"],
+        "mirsym": ["eval_generic", "generated_forwarding"],
         "bounds": {"quick": "trait-shape family (8 shapes quick): &self with (u8, &mut u16, &str); 5 mixed parameters; Rc<Self>; trait-level generic at u16; async fn with &mut parameter; RPIT future; flattened api — each for ALL argument values; one or two calls per shape; scripted evaluator in place of the runtime",
                    "thorough": "same family (the &mut self / Pin<&mut Self> / by-value shapes are disabled: Kani does not terminate on their polonius-based expansion / teardown within 10 minutes)"},
         "assumptions": COMMON_KANI + COMMON_MIR + ["unimock::private::eval is replaced (kani::stub) by a per-harness scripted evaluator that returns Continuation::Answer(the harness' typed answer function) with the inputs untouched; that the real eval hands the inputs back unchanged is the E1 unit eval_generic"],
         "outside": ["shapes outside the family, in particular &mut self, Pin<&mut Self> and by-value receivers (tool limit, measured)", "method-level generics and impl-Trait parameters", "async runtimes (futures are polled by hand with a no-op waker)"],
     },
     "C15": {
-        "mirsym": ["eval_dyn", "delegators", "teardown"],
+        "mirsym": ["eval_dyn", "delegators", "teardown", "generated_forwarding"],
         "bounds": {"quick": "&self provided method whose body calls a required method twice: all argument values, one call; decision table of eval_dyn for unmentioned / mentioned methods with a default body (see C07)"},
         "assumptions": COMMON_KANI + COMMON_MIR + ["scripted evaluator: first evaluation answers CallDefaultImpl, nested ones answer with a typed function and record the state identity they were given",
                                                    "once_cell::sync::OnceCell replaced by once_cell's unsync cell under cfg(kani) (helper initialisation)"],
         "outside": ["&mut self, by-value, Rc/Arc and Pin<&mut Self> receivers (Kani: teardown of the helper clone does not terminate; their release order is decided by the C09/C11 teardown unit)", "that counters/slots are then shared follows from the shared state identity (same step function, C01/C04)"],
     },
     "C16": {
-        "mirsym": ["eval_dyn", "induce_panic"],
+        "mirsym": ["eval_dyn", "induce_panic", "generated_forwarding"],
         "bounds": {"quick": "unmock_with in three forms (skip `_`, path, path(params)) at list positions 0..2 of a 3-method trait, sync and async: all argument values; recursion depth 1 through the mock; fall-through decisions: eval_dyn table (C07); missing function -> CannotUnmock recorded: induce_panic unit"},
         "assumptions": COMMON_KANI + COMMON_MIR + ["scripted evaluator answering Continuation::Unmock"],
         "outside": ["recursion depth > 1", "trait shapes outside the family"],
